@@ -110,6 +110,15 @@ func genGun(r *rand.Rand, inst int) string {
 		shots = 6 + r.Intn(10)
 		rows = 1 + r.Intn(60)
 	}
+	if r.Intn(25) == 0 {
+		rows = 0 // empty data source: every indexed access is an error of its step
+	}
+	rn := func() int {
+		if rows == 0 {
+			return 0
+		}
+		return r.Intn(rows)
+	}
 	// which variables each request produces
 	type vars struct{ pre, post []string }
 	prod := map[string]*vars{}
@@ -139,7 +148,7 @@ func genGun(r *rand.Rand, inst int) string {
 				case x == 6 && inst == 1:
 					pre = append(pre, fmt.Sprintf("rv%d=r", j))
 				default:
-					pre = append(pre, fmt.Sprintf("%s=i%d", vn, r.Intn(rows)))
+					pre = append(pre, fmt.Sprintf("%s=i%d", vn, rn()))
 					v.pre = append(v.pre, vn)
 				}
 			}
@@ -163,7 +172,7 @@ func genGun(r *rand.Rand, inst int) string {
 			case x == 8 && allowErr && r.Intn(4) == 0:
 				return fmt.Sprintf("s%d", rows+r.Intn(3))
 			default:
-				return fmt.Sprintf("s%d", r.Intn(rows))
+				return fmt.Sprintf("s%d", rn())
 			}
 		}
 		allowErr := !(inst > 1 && hasNext)
@@ -248,9 +257,9 @@ func genGun(r *rand.Rand, inst int) string {
 }
 
 func gen(r *rand.Rand, tier string) []string {
-	nProv, nGun1, nGun4 := 600, 250, 120
+	nProv, nGun1, nGun4 := 1200, 500, 250
 	if tier == "thorough" {
-		nProv, nGun1, nGun4 = 12000, 4000, 2000
+		nProv, nGun1, nGun4 = 16000, 6000, 3000
 	}
 	var out []string
 	for i := 0; i < nProv; i++ {
